@@ -19,43 +19,37 @@ Proof.
   intros H. right. now apply String.eqb_eq.
 Qed.
 
-(** a plain node whose tag is !!str or !!null is a scalar *)
-Lemma plain_str_scalar x : plain_node x -> n_tag x = strTag \/ n_tag x = nullTag -> n_kind x = KScalar.
+(** what pint's kindMismatch checks (b22de24, 4a0d172) leave through: the node, read through an alias, has the expected
+    kind, or is a null scalar.  The guard says nothing about tags any more; kinds come from these checks. *)
+Lemma km_cases n k : kind_mismatch n k = false ->
+  n_kind (deref n) = k \/ (n_kind (deref n) = KScalar /\ n_tag (deref n) = nullTag).
 Proof.
-  intros [_ H] T. destruct (n_kind x); try contradiction; try reflexivity.
-  - destruct H as (E & _). rewrite E in T. destruct T; discriminate.
-  - destruct H as (E & _). rewrite E in T. destruct T; discriminate.
+  unfold kind_mismatch, deref. destruct (n_alias n) as [t|]; set (m := match _ with _ => _ end) || idtac;
+    (destruct ((n_tag _ =? nullTag) && kind_eqb (n_kind _) KScalar)%bool eqn:E; intros H;
+     [right; apply andb_true_iff in E; destruct E as [E1 E2]; split; [now apply kind_eqb_eq|now apply String.eqb_eq]
+     |left; apply negb_false_iff in H; now apply kind_eqb_eq]).
 Qed.
 
-Lemma plain_map_tag x : plain_node x -> n_tag x = mapTag -> n_kind x = KMapping.
-Proof.
-  intros [_ H] T. destruct (n_kind x); try contradiction; try reflexivity.
-  - destruct H as (E & _). rewrite E in T. discriminate.
-  - destruct H as (_ & N & _). congruence.
-Qed.
+Lemma km_scalar n : kind_mismatch n KScalar = false -> n_kind (deref n) = KScalar.
+Proof. intros H. destruct (km_cases n KScalar H) as [K|[K _]]; exact K. Qed.
 
-Lemma plain_seq_tag x : plain_node x -> n_tag x = seqTag -> n_kind x = KSequence.
-Proof.
-  intros [_ H] T. destruct (n_kind x); try contradiction; try reflexivity.
-  - destruct H as (E & _). rewrite E in T. discriminate.
-  - destruct H as (_ & _ & N & _). congruence.
-Qed.
+Lemma km_plain x k : n_alias x = None -> kind_mismatch x k = false -> n_kind x = k \/ (n_kind x = KScalar /\ n_tag x = nullTag).
+Proof. intros Ha H. pose proof (km_cases x k H) as X. unfold deref in X. now rewrite Ha in X. Qed.
 
 Lemma plain_nonempty_scalar x : plain_node x -> n_value x <> "" -> n_kind x = KScalar.
 Proof.
-  intros [_ H] V. destruct (n_kind x); try contradiction; try reflexivity.
-  - destruct H as (_ & E). congruence.
-  - destruct H as (_ & E & _). congruence.
+  intros (_ & _ & H) V. destruct (n_kind x); try contradiction; try reflexivity.
+  destruct H as (E & _). congruence.
 Qed.
 
 Lemma first_bad_tag_none want kd : forall l,
-  first_bad_tag want kd l = None -> forall k n, In (k, Some n) l -> is_tag (n_tag n) want = true.
+  first_bad_tag want kd l = None -> forall k n, In (k, Some n) l -> is_tag (n_tag n) want = true /\ kind_mismatch n kd = false.
 Proof.
   induction l as [|[k o] r IH]; intros H k0 n Hin; [destruct Hin|].
   cbn [first_bad_tag] in H. destruct o as [m|].
   - destruct (negb (is_tag (n_tag m) want) || kind_mismatch m kd)%bool eqn:E; [discriminate|].
-    apply orb_false_iff in E. destruct E as [E _]. apply negb_false_iff in E.
-    destruct Hin as [X|X]; [inversion X; subst; exact E|exact (IH H k0 n X)].
+    apply orb_false_iff in E. destruct E as [E E']. apply negb_false_iff in E.
+    destruct Hin as [X|X]; [inversion X; subst; split; assumption|exact (IH H k0 n X)].
   - destruct Hin as [X|X]; [discriminate|exact (IH H k0 n X)].
 Qed.
 
@@ -74,17 +68,17 @@ Qed.
 
 Lemma validate_string_map_loop_none fld all off lines : forall l seen,
   validate_string_map_loop fld all off lines seen l = None ->
-  (forall k v, In (k, v) l -> is_tag (n_tag v) strTag = true) /\
+  (forall k v, In (k, v) l -> is_tag (n_tag v) strTag = true /\ kind_mismatch v KScalar = false) /\
   NoDup (map key_text l) /\ (forall kv, In kv l -> ~ In (key_text kv) seen).
 Proof.
   induction l as [|[k v] r IH]; intros seen H.
-  - repeat split; [intros ? ? []|constructor|intros ? []].
+  - split; [intros ? ? []|split; [constructor|intros ? []]].
   - cbn [validate_string_map_loop] in H.
     destruct (negb (is_tag (n_tag v) strTag) || kind_mismatch v KScalar)%bool eqn:E1; [discriminate|].
-    apply orb_false_iff in E1. destruct E1 as [E1 _]. apply negb_false_iff in E1.
+    apply orb_false_iff in E1. destruct E1 as [E1 E1']. apply negb_false_iff in E1.
     destruct (mem_str (n_value k) seen) eqn:E2; [discriminate|].
-    destruct (IH _ H) as (A & B & C). repeat split.
-    + intros k0 v0 [X|X]; [inversion X; subst; exact E1|exact (A k0 v0 X)].
+    destruct (IH _ H) as (A & B & C). split; [|split].
+    + intros k0 v0 [X|X]; [inversion X; subst; split; assumption|exact (A k0 v0 X)].
     + cbn [map]. constructor; [|exact B]. intros Hin. apply in_map_iff in Hin. destruct Hin as (kv & Ek & Hkv).
       apply (C kv Hkv). rewrite Ek. left. reflexivity.
     + intros kv [X|X].
@@ -94,7 +88,7 @@ Qed.
 
 Lemma validate_string_map_none fld nodes off lines :
   validate_string_map fld nodes off lines = None ->
-  (forall k v, In (k, v) nodes -> is_tag (n_tag v) strTag = true) /\ NoDup (map key_text nodes).
+  (forall k v, In (k, v) nodes -> is_tag (n_tag v) strTag = true /\ kind_mismatch v KScalar = false) /\ NoDup (map key_text nodes).
 Proof.
   intros H. destruct (validate_string_map_loop_none _ _ _ _ _ _ H) as (A & B & _). split; assumption.
 Qed.
@@ -274,10 +268,10 @@ Section Rule.
       unfold unp. rewrite X. exact V.
   Qed.
 
-  Lemma leaf_scalar_of vv : leaf vv -> is_tag (n_tag vv) strTag = true -> leaf_scalar vv.
+  Lemma leaf_scalar_of vv : leaf vv -> kind_mismatch vv KScalar = false -> leaf_scalar vv.
   Proof.
-    intros (tv & Hs & Hp) Ht. exists tv. split; [exact Hs|]. pose proof (plain_self tv Hp) as Hn. split; [exact Hn|].
-    apply plain_str_scalar; [exact Hn|]. rewrite <- (sees_tag vv tv Hs). destruct (is_tag_true _ _ Ht); auto.
+    intros (tv & Hs & Hp) Hk. exists tv. split; [exact Hs|]. pose proof (plain_self tv Hp) as Hn. split; [exact Hn|].
+    rewrite <- (proj1 (sees_deref vv tv Hs)). exact (km_scalar vv Hk).
   Qed.
 
   (** Prometheus' view of a label/annotation map that pint validated *)
@@ -285,16 +279,16 @@ Section Rule.
     map (fun kv => (key_text kv, str_val (snd kv))) lps.
 
   Lemma strmap_of_validated fld x off ln :
-    tgt_ok x -> is_tag (n_tag x) mapTag = true ->
+    tgt_ok x -> kind_mismatch x KMapping = false ->
     validate_string_map fld (mapping_nodes x) off ln = None ->
     (forall k v, In (k, v) (mapping_nodes x) -> n_value k <> "") ->
-    (n_tag x = nullTag /\ dec_strmap str_ok null_ok x = DNull) \/
+    (n_kind x = KScalar /\ dec_strmap str_ok null_ok x = DNull) \/
     (n_kind x = KMapping /\ dec_strmap str_ok null_ok x = DOk (pairs_text (mapping_nodes x))).
   Proof.
-    intros Hp Ht Hv Hne. pose proof (tgt_plain x Hp) as Hx.
-    destruct (is_tag_true _ _ Ht) as [T|T].
-    - left. split; [exact T|]. apply dec_strmap_null; auto. apply plain_str_scalar; auto.
-    - right. pose proof (plain_map_tag x Hx T) as K. split; [exact K|].
+    intros Hp Hkm Hv Hne. pose proof (tgt_plain x Hp) as Hx.
+    destruct (km_plain x KMapping (proj1 Hx) Hkm) as [K|[K T]].
+    2:{ left. split; [exact K|]. apply dec_strmap_null; auto. }
+    - right. split; [exact K|].
       destruct (tgt_lmap x Hp K) as (_ & _ & Hl).
       destruct (validate_string_map_none _ _ _ _ Hv) as [Hvals Hnd].
       apply dec_strmap_plain; auto.
@@ -303,7 +297,7 @@ Section Rule.
         * apply plain_nonempty_scalar; auto. exact (Hne k v Hin).
         * exact (plain_mapping_keys x k v Hx K Hin).
       + intros k v Hin. destruct (Hl k v Hin) as [_ Hlv].
-        exact (leaf_scalar_of v Hlv (Hvals k v Hin)).
+        exact (leaf_scalar_of v Hlv (proj2 (Hvals k v Hin))).
   Qed.
 
   (** slots in terms of the pairs *)
@@ -414,11 +408,11 @@ Section Rule.
   Lemma unpack_guard rn : rule_guard rn -> n_kind rn <> KSequence -> unpack_nodes rn = flatten (ups rn).
   Proof.
     intros [Hrn Hg] Ks. unfold unpack_nodes, ups.
-    destruct (n_kind rn) eqn:K; try (destruct Hrn as [_ X]; rewrite K in X; contradiction).
+    destruct (n_kind rn) eqn:K; try (destruct Hrn as (_ & _ & X); rewrite K in X; contradiction).
     - rewrite (plain_mapping_content rn Hrn K). unfold flatten at 1. rewrite unpack_loop_values; [apply flatten_ups|].
       intros k x Hin. destruct (Hg k x Hin) as [Hk (t & Hs & Ht)]. split; [exact (plain_not_merge k (plain_self k Hk))|].
       destruct Hs as [[-> _]|Hal]; [left; exact (tgt_not_merge t Ht)|right; exists t; exact Hal].
-    - destruct Hrn as [_ X]. rewrite K in X. destruct X as (C & _). unfold mapping_nodes. rewrite C. reflexivity.
+    - destruct Hrn as (_ & _ & X). rewrite K in X. unfold mapping_nodes. rewrite X. reflexivity.
   Qed.
 
   (** Step 1: what acceptance by parseRuleStrict means, in terms of the pairs [ps] unpackNodes hands to parseRule. *)
@@ -457,14 +451,14 @@ Section Rule.
     - exact PRE.
   Qed.
 
-  Lemma accepted_is_map rn : r_error (PRS lines rn) = None -> is_tag (n_tag rn) mapTag = true.
+  Lemma accepted_is_map rn : r_error (PRS lines rn) = None -> kind_mismatch rn KMapping = false.
   Proof.
     unfold parse_rule_strict. destruct (negb (is_tag (n_tag rn) mapTag) || kind_mismatch rn KMapping)%bool eqn:Et; [discriminate|].
-    intros _. apply orb_false_iff in Et. now apply negb_false_iff.
+    intros _. apply orb_false_iff in Et. exact (proj2 Et).
   Qed.
 
-  Lemma guard_not_seq rn : rule_guard rn -> is_tag (n_tag rn) mapTag = true -> n_kind rn <> KSequence.
-  Proof. intros [[_ H] _] Et K. rewrite K in H. destruct H as (T & _). rewrite T in Et. discriminate. Qed.
+  Lemma guard_not_seq rn : rule_guard rn -> kind_mismatch rn KMapping = false -> n_kind rn <> KSequence.
+  Proof. intros [(Ha & _) _] Hk K. destruct (km_plain rn KMapping Ha Hk) as [X|[X _]]; congruence. Qed.
 
   Lemma ups_noalias_keys rn : rule_guard rn -> forall kv, In kv (ups rn) -> n_alias (fst kv) = None.
   Proof.
@@ -487,8 +481,8 @@ Section Rule.
     pose proof (guard_not_seq rn Hp (accepted_is_map rn Herr)) as Ks.
     destruct (rule_accept_core rn ps (unpack_guard rn Hp Ks) (ups_noalias_keys rn Hp) Herr) as (s & Hne & A & B & C & D & E).
     assert (K : n_kind rn = KMapping).
-    { pose proof Hrn as [_ H]. destruct (n_kind rn) eqn:K; try contradiction; try reflexivity.
-      exfalso. apply Hne. destruct H as (Cn & _). unfold ps, ups, mapping_nodes. rewrite Cn. reflexivity. }
+    { pose proof Hrn as (_ & _ & H). destruct (n_kind rn) eqn:K; try contradiction; try reflexivity.
+      exfalso. apply Hne. unfold ps, ups, mapping_nodes. rewrite H. reflexivity. }
     exists s. split; [exact K|]. split; [exact (plain_mapping_content rn Hrn K)|]. auto.
   Qed.
 
@@ -496,14 +490,14 @@ Section Rule.
   Proof. destruct f; cbn; intros H; try tauto. Qed.
 
   Lemma views_scalar x t :
-    views x t -> tgt_ok t -> is_tag (n_tag x) strTag = true -> plain_node t /\ n_kind t = KScalar.
+    views x t -> tgt_ok t -> kind_mismatch x KScalar = false -> plain_node t /\ n_kind t = KScalar.
   Proof.
-    intros (_ & _ & T & _) Hp Ht. pose proof (tgt_plain t Hp) as Hx. split; [exact Hx|].
-    apply plain_str_scalar; auto. rewrite <- T. destruct (is_tag_true _ _ Ht); auto.
+    intros (D & _) Hp Hk. pose proof (tgt_plain t Hp) as Hx. split; [exact Hx|].
+    rewrite <- D. exact (km_scalar x Hk).
   Qed.
 
   Lemma dec_str_value x t :
-    views x t -> tgt_ok t -> is_tag (n_tag x) strTag = true -> n_tag x <> nullTag ->
+    views x t -> tgt_ok t -> kind_mismatch x KScalar = false -> n_tag x <> nullTag ->
     dec_string str_ok null_ok x = DOk (node_value x).
   Proof.
     intros Hv Hp Ht Hn. destruct (views_scalar x t Hv Hp Ht) as [Hx K]. destruct Hv as (D & A & T & _ & V & _).
@@ -512,7 +506,7 @@ Section Rule.
   Qed.
 
   Lemma dec_dur_value x t :
-    views x t -> tgt_ok t -> is_tag (n_tag x) strTag = true ->
+    views x t -> tgt_ok t -> kind_mismatch x KScalar = false ->
     dec_duration str_ok null_ok dur_ok x =
     if String.eqb (n_tag x) nullTag then DNull else if dur_ok (node_value x) then DOk (node_value x) else DErr.
   Proof.
@@ -690,7 +684,7 @@ Section Rule.
   Qed.
 
   Lemma strmap_noerr fld x off ln :
-    tgt_ok x -> is_tag (n_tag x) mapTag = true ->
+    tgt_ok x -> kind_mismatch x KMapping = false ->
     validate_string_map fld (mapping_nodes x) off ln = None ->
     (forall k v, In (k, v) (mapping_nodes x) -> n_value k <> "") ->
     derr (dec_strmap str_ok null_ok x) = false.
@@ -714,7 +708,7 @@ Section Rule.
 
   (** a validated `labels:` value: decodes, passes the label checks and the template check *)
   Lemma labels_facts_t kl xl ln (checked : list (ynode * ynode)) :
-    tgt_ok xl -> is_tag (n_tag xl) mapTag = true ->
+    tgt_ok xl -> kind_mismatch xl KMapping = false ->
     validate_string_map "labels" (mapping_nodes xl) 0 ln = None ->
     bad_label lname_ok lvalue_ok (ym_items (nym kl xl)) = None ->
     derr (dec_strmap str_ok null_ok xl) = false /\
@@ -725,25 +719,24 @@ Section Rule.
     NoDup (map (fun ab : ynode * ynode => y_value (fst ab)) (ym_items (nym kl xl))).
   Proof.
     intros Hp Ht Hv Hb. pose proof (tgt_plain xl Hp) as Hx.
-    destruct (is_tag_true _ _ Ht) as [T|T].
-    - (* null *)
-      assert (K : n_kind xl = KScalar) by (apply plain_str_scalar; [exact Hx|auto]).
+    destruct (km_plain xl KMapping (proj1 Hx) Ht) as [K|[K T]].
+    2:{ (* null *)
       rewrite (dec_strmap_null str_ok null_ok H_null xl Hx K T). cbn [derr dval forallb].
       assert (C : n_content xl = []).
-      { destruct Hx as [_ H]. rewrite K in H. tauto. }
-      repeat split; auto. unfold new_yaml_map. cbn [ym_items]. rewrite C. constructor.
-    - pose proof (plain_map_tag xl Hx T) as K. pose proof (tgt_lmap xl Hp K) as Hl.
+      { destruct Hx as (_ & _ & H). rewrite K in H. exact H. }
+      repeat split; auto. unfold new_yaml_map. cbn [ym_items]. rewrite C. constructor. }
+    - pose proof (tgt_lmap xl Hp K) as Hl.
       assert (Hne : forall k v, In (k, v) (mapping_nodes xl) -> n_value k <> "").
       { apply (label_keys_nonempty kl xl Hl). intros ya yb Hab. exact (proj1 (bad_label_none _ Hb ya yb Hab)). }
-      destruct (strmap_of_validated "labels" xl 0 ln Hp Ht Hv Hne) as [[T' _]|[_ E]].
-      { rewrite T in T'. discriminate. }
+      destruct (strmap_of_validated "labels" xl 0 ln Hp Ht Hv Hne) as [[K' _]|[_ E]].
+      { rewrite K in K'. discriminate. }
       rewrite E. cbn [derr dval]. split; [reflexivity|]. split; [exact (labels_valid kl xl Hl Hb)|]. split.
       + intros Hsub Hex. exact (templates_valid kl xl checked Hl Hsub Hex).
       + rewrite (items_keys kl xl Hl). exact (proj2 (validate_string_map_none _ _ _ _ Hv)).
   Qed.
 
   Lemma annotations_facts_t kn xn ln :
-    tgt_ok xn -> is_tag (n_tag xn) mapTag = true ->
+    tgt_ok xn -> kind_mismatch xn KMapping = false ->
     validate_string_map "annotations" (mapping_nodes xn) 0 ln = None ->
     bad_annotation lname_ok (ym_items (nym kn xn)) = None ->
     derr (dec_strmap str_ok null_ok xn) = false /\
@@ -752,14 +745,13 @@ Section Rule.
      forallb (fun kv : string * string => tmpl_prom (snd kv)) (dval (dec_strmap str_ok null_ok xn) []) = true).
   Proof.
     intros Hp Ht Hv Hb. pose proof (tgt_plain xn Hp) as Hx.
-    destruct (is_tag_true _ _ Ht) as [T|T].
-    - assert (K : n_kind xn = KScalar) by (apply plain_str_scalar; [exact Hx|auto]).
-      rewrite (dec_strmap_null str_ok null_ok H_null xn Hx K T). cbn [derr dval forallb]. auto.
-    - pose proof (plain_map_tag xn Hx T) as K. pose proof (tgt_lmap xn Hp K) as Hl.
+    destruct (km_plain xn KMapping (proj1 Hx) Ht) as [K|[K T]].
+    2:{ rewrite (dec_strmap_null str_ok null_ok H_null xn Hx K T). cbn [derr dval forallb]. auto. }
+    - pose proof (tgt_lmap xn Hp K) as Hl.
       assert (Hne : forall k v, In (k, v) (mapping_nodes xn) -> n_value k <> "").
       { apply (label_keys_nonempty kn xn Hl). intros ya yb Hab. exact (bad_annotation_none _ Hb ya yb Hab). }
-      destruct (strmap_of_validated "annotations" xn 0 ln Hp Ht Hv Hne) as [[T' _]|[_ E]].
-      { rewrite T in T'. discriminate. }
+      destruct (strmap_of_validated "annotations" xn 0 ln Hp Ht Hv Hne) as [[K' _]|[_ E]].
+      { rewrite K in K'. discriminate. }
       rewrite E. cbn [derr dval]. split; [reflexivity|]. split.
       + apply forallb_forall. intros [a0 b0] Hin. unfold pairs_text in Hin. apply in_map_iff in Hin.
         destruct Hin as ([kk vv] & E0 & Hin). inversion E0; subst a0 b0. cbn [fst].
@@ -780,8 +772,13 @@ Section Rule.
     - rewrite (dec_strmap_deref str_ok null_ok x) by (now rewrite D). now rewrite D.
   Qed.
 
+  Lemma km_views x t k : views x t -> kind_mismatch x k = kind_mismatch t k.
+  Proof.
+    intros (D & A & _). unfold kind_mismatch. rewrite A. fold (deref x). now rewrite D.
+  Qed.
+
   Lemma labels_facts kl xl t ln (checked : list (ynode * ynode)) :
-    views xl t -> tgt_ok t -> is_tag (n_tag xl) mapTag = true ->
+    views xl t -> tgt_ok t -> kind_mismatch xl KMapping = false ->
     validate_string_map "labels" (mapping_nodes xl) 0 ln = None ->
     bad_label lname_ok lvalue_ok (ym_items (nym kl xl)) = None ->
     derr (dec_strmap str_ok null_ok xl) = false /\
@@ -791,12 +788,12 @@ Section Rule.
      forallb (fun kv : string * string => tmpl_prom (snd kv)) (dval (dec_strmap str_ok null_ok xl) []) = true) /\
     NoDup (map (fun ab : ynode * ynode => y_value (fst ab)) (ym_items (nym kl xl))).
   Proof.
-    intros Hv Hp. destruct (views_map_eqs kl xl t Hv) as (E1 & E2 & E3). destruct Hv as (_ & _ & T & _).
-    rewrite E1, E2, E3, T. apply labels_facts_t. exact Hp.
+    intros Hv Hp. destruct (views_map_eqs kl xl t Hv) as (E1 & E2 & E3).
+    rewrite E1, E2, E3, (km_views xl t KMapping Hv). apply labels_facts_t. exact Hp.
   Qed.
 
   Lemma annotations_facts kn xn t ln :
-    views xn t -> tgt_ok t -> is_tag (n_tag xn) mapTag = true ->
+    views xn t -> tgt_ok t -> kind_mismatch xn KMapping = false ->
     validate_string_map "annotations" (mapping_nodes xn) 0 ln = None ->
     bad_annotation lname_ok (ym_items (nym kn xn)) = None ->
     derr (dec_strmap str_ok null_ok xn) = false /\
@@ -804,8 +801,8 @@ Section Rule.
     (existsb (fun kv : ynode * ynode => negb (tmpl_pint (y_value (snd kv)))) (ym_items (nym kn xn)) = false ->
      forallb (fun kv : string * string => tmpl_prom (snd kv)) (dval (dec_strmap str_ok null_ok xn) []) = true).
   Proof.
-    intros Hv Hp. destruct (views_map_eqs kn xn t Hv) as (E1 & E2 & E3). destruct Hv as (_ & _ & T & _).
-    rewrite E1, E2, E3, T. apply annotations_facts_t. exact Hp.
+    intros Hv Hp. destruct (views_map_eqs kn xn t Hv) as (E1 & E2 & E3).
+    rewrite E1, E2, E3, (km_views xn t KMapping Hv). apply annotations_facts_t. exact Hp.
   Qed.
 
   (** The core, for any description [ps] of what unpackNodes hands to parseRule and any assignment list [a_prom] the
@@ -853,11 +850,11 @@ Section Rule.
     (* tag facts *)
     assert (T5 : forall k n, In (k, Some n) [("record", onode (s_record s)); ("alert", onode (s_alert s)); ("expr", onode (s_expr s));
                                              ("for", onode (s_for s)); ("keep_firing_for", onode (s_keep s))] ->
-                             is_tag (n_tag n) strTag = true).
-    { apply (first_bad_tag_none strTag KScalar). destruct (first_bad_tag strTag _ _) as [[k0 p0]|]; [discriminate C5|reflexivity]. }
+                             kind_mismatch n KScalar = false).
+    { intros k n Hin. refine (proj2 (first_bad_tag_none strTag KScalar _ _ k n Hin)). destruct (first_bad_tag strTag _ _) as [[k0 p0]|]; [discriminate C5|reflexivity]. }
     assert (T6 : forall k n, In (k, Some n) [("labels", onode (s_labels s)); ("annotations", onode (s_ann s))] ->
-                             is_tag (n_tag n) mapTag = true).
-    { apply (first_bad_tag_none mapTag KMapping). destruct (first_bad_tag mapTag _ _) as [[k0 p0]|]; [discriminate C6|reflexivity]. }
+                             kind_mismatch n KMapping = false).
+    { intros k n Hin. refine (proj2 (first_bad_tag_none mapTag KMapping _ _ k n Hin)). destruct (first_bad_tag mapTag _ _) as [[k0 p0]|]; [discriminate C6|reflexivity]. }
     assert (TN : forall k n, In (k, Some n) [("record", onode (s_record s)); ("alert", onode (s_alert s)); ("expr", onode (s_expr s))] ->
                              n_tag n = nullTag -> n_value n = "").
     { apply first_null_text_none. destruct (first_null_text _) as [[k0 p0]|]; [discriminate CN|reflexivity]. }
